@@ -27,6 +27,8 @@ class Reader():
             if sheet_name in ignore_sheets:
                 continue
             sheet = self.book[sheet_name]
+            if ignore_hidden and sheet.sheet_state != 'visible':
+                continue
             for cell in sheet._cells.values():
                 addr = f'{sheet_name}!{cell.coordinate}'
                 if cell.data_type == 'f':
